@@ -245,6 +245,26 @@ pub fn finding(d: &RDoc, wseed: u64, style: XrefStyle, objstm: bool) -> Finding 
     } else {
         false
     };
+    // (minimising is costly; on a tree that fails thousands of files only the first findings of a run are minimised.
+    // The others keep the known-finding features switched off, so they can never be mistaken for a known finding.)
+    static MINIMISATIONS_LEFT: std::sync::atomic::AtomicIsize = std::sync::atomic::AtomicIsize::new(48);
+    if attributed.is_none() && MINIMISATIONS_LEFT.fetch_sub(1, std::sync::atomic::Ordering::Relaxed) <= 0 {
+        let res = run_case(d, wseed, style, objstm, &all);
+        if !res.diffs.is_empty() {
+            let h = History::from_doc(d);
+            let (w, _) = write_history(wseed, &all, &h, style, objstm);
+            let sig = format!("C02/{}/(not minimised)", if style == XrefStyle::Table { "table" } else { "stream" });
+            return Finding {
+                signature: sig.clone(),
+                what: format!("loaded document differs from what the file defines: {}", res.diffs.first().map(|x| x.1.clone()).unwrap_or_default()),
+                witness: json!({
+                    "kind":"file","expect":rdoc_to_json(d),"containers": w.container_ids.iter().collect::<Vec<_>>(),
+                    "signature": sig, "features_used": res.used,
+                    "file_hex": hex(&w.bytes), "file_text": String::from_utf8_lossy(&w.bytes[..w.bytes.len().min(3000)]),
+                }),
+            };
+        }
+    }
     let (md, disabled, res) = attributed.unwrap_or_else(|| minimise_from(d, wseed, style, objstm, if independent { all.clone() } else { BTreeSet::new() }));
     let h = History::from_doc(&md);
     let (w, _) = write_history(wseed, &disabled, &h, style, objstm);
